@@ -72,6 +72,9 @@ struct Gen {
       Recipe r; int tries = 0; std::shared_ptr<Link> l;
       do { r = pool_recipe(c.master, g.below(pool), many_ch); if (r.trim && (prop == "C20" || prop == "C19" || prop == "C03" || prop == "C13" || prop == "C12" || prop == "C17")) r.trim += r.trim & 1; /* half rate is toggled in these histories: keep the cut on the even grid */ if (p_bs64 > 0 && g.chance(p_bs64)) { r.bs64 = 1; r.cut = 0; r.trim = 0; r.sig = g.chance(0.75) ? 6 : 1; r.n = std::max<int64_t>(r.n, 3000); } l = get_link(r); } while ((!l->ok || l->ref_err || r.n * r.ch > budget) && ++tries < 20);
       if (prop == "C17" && g.chance(0.03)) { Recipe z; z.ch = g.chance(0.7) ? 255 : 254; z.rate = 8000; z.q = 0.4; z.n = 1200 + 600 * (int64_t)g.below(3); z.sig = 2; z.seed = 7; z.ncomm = 1; auto lz = get_link(z); if (lz->ok && !lz->ref_err) { r = z; l = lz; } }   // the format's maximum channel count (the quick tier's recipe pool is too small to be sure of containing it)
+      if (prop != "C17" && prop != "C04" && g.chance(prop == "C20" ? 0.14 : 0.07)) {   // a hand-built link (craft.cpp): block-size and mode patterns the encoder never produces, genuine 64-sample short blocks; noise audio (so not for C17's arithmetic)
+        static const long rates[] = {8000, 22050, 44100, 48000}; Recipe z; z.craft = 1; z.ch = (int)g.range(1, 3); z.rate = rates[g.below(4)]; z.seed = g.below(thorough ? 600 : 60); z.n = (int64_t)(20 + 30 * g.below(6)); z.ncomm = 1;
+        auto lz = get_link(z); if (lz->ok && !lz->ref_err && lz->len > 0) { r = z; l = lz; } }
       if (!l->ok || l->ref_err) continue;
       if (nl >= 3 && i > 0 && i + 1 < nl && g.chance(0.15)) { Recipe z = r; z.n = (int64_t)g.below(3); z.cut = z.trim = z.bs64 = 0; auto lz = get_link(z); if (lz->ok && !lz->ref_err) { r = z; l = lz; } }   // a zero/one/two-sample link between two others
       budget -= r.n * r.ch; if (budget < 2000) budget = 2000;
@@ -104,11 +107,11 @@ struct Gen {
     bool seekable = g.chance(p_seekable);
     int rdpol = (int)g.below(5); if (rdpol == 1 && sr.bytes.size() > 60000) rdpol = 2;
     f.set("seekable", seekable ? 1 : 0).set("rdpol", rdpol).set("rdk", (int64_t)g.range(1, 3000)).setu("rdseed", g.next() % 100000);
-    f.set("open", (int64_t)(g.chance(0.7) ? 0 : g.below(3))).set("poison", (int64_t)g.below(5)).setu("pseed", g.next() % 100000);
+    f.set("open", (int64_t)(g.chance(0.7) ? 0 : g.below(4))).set("poison", (int64_t)g.below(5)).setu("pseed", g.next() % 100000);
     if (!seekable) { f.set("noseekfn", (int64_t)g.below(2)); if (g.chance(0.3)) f.set("ibytes", (int64_t)g.range(1, 5000)); }
     if (g.chance(0.3)) f.set("clear2", 1);
     if (g.chance(0.05)) f.set("noclosefn", 1);
-    if (f.i("open") == 2) f.set("stdiobuf", (int64_t)g.range(16, 4096));
+    if (f.i("open") >= 2) f.set("stdiobuf", (int64_t)g.range(16, 4096));
   }
 
   Plan make() {
@@ -167,6 +170,8 @@ struct Gen {
       if (k[0] == 'p') r.set("a", t[i]); else { int64_t pos = std::min(t[i], std::max<int64_t>(0, sr.total - 1)); r.setf("t", time_of(pos, 0.0)); }
       if (g.chance(0.6)) op("read_float").set("len", (int64_t)g.range(16, 600)).set("rep", 1);
     }
+    // hundreds of seeks through a source that hands out one byte per call is minutes of callbacks: slow, and taken for a loop by the watchdog
+    if ((t.size() - off) / step > 300) for (auto &r : p.recs) if (r.type == "file" && r.i("rdpol") == 1) r.set("rdpol", 2);
   }
   void gen_lap() {
     int n = (int)g.range(2, thorough ? 14 : 8);
